@@ -11,7 +11,7 @@ PRELUDE = r'''
 #include <netinet/in.h>
 #include <arpa/inet.h>
 #include <string.h>
-int vs_exc; size_t g_fact_idx[4]; char g_fact_ch[4]; unsigned g_fact_n; size_t g_nofact_from[2]; char g_nofact_ch[2]; unsigned g_nofact_n; size_t g_w; long g_strtol_ret; char g_strtol_endc;
+int vs_exc; size_t g_fact_idx[4]; char g_fact_ch[4]; unsigned g_fact_n; size_t g_nofact_from[2]; char g_nofact_ch[2]; unsigned g_nofact_n; size_t g_w; char g_strtol_endc; bool g_num_neg, g_num_ovf; unsigned long g_num_mag;
 /* ghost: where inet_ntop put the terminator, which family it printed and from which source */
 size_t g_ntop_len; int g_ntop_af; const void *g_ntop_src; unsigned g_ntop_calls;
 /* ghost sample: byte g_k of the address that was printed (g_k is any index below the address size) */
